@@ -541,3 +541,97 @@ Proof.
     + exact Hl4.
     + rewrite Hl5. exact Ha2.
 Qed.
+
+(* a select support whose three arrays describe the set bits of the transformed sequence *)
+Definition ss_valid (t : transf) (B : list bool) (s : select_support) : Prop :=
+  ss_arrays t B (ss_samples s) (ss_long s) (ss_short s).
+
+(* SelectSupport::new succeeds on every vector, in both modes and on both select paths; the result is
+   valid and has ceil(ones / 4096) superblocks. No case distinction on long / short superblocks. *)
+Theorem select_new_spec sp m t b B : bv_repr b B ->
+  exists s, select_new sp m t b = Ok s /\ ss_valid t B s /\
+            ss_superblocks s = (count (t_bits t B) + 4095) / 4096.
+Proof.
+  intros Hrep. unfold select_new.
+  destruct (oi_start_inv t b B Hrep) as [Hinv0 Hmid0].
+  destruct (oi_next_spec t b B _ Hrep Hinv0) as (it1 & E1 & Hinv1 & Hmid1).
+  rewrite E1. cbn [bind]. rewrite Hmid0 in *.
+  pose proof (t_count_ones_spec t b B Hrep) as Hcnt.
+  change select_SUPERBLOCK_SIZE with 4096.
+  change ((bit_len (bv_len b) * bit_len (bv_len b)) * (bit_len (bv_len b) * bit_len (bv_len b))) with (log4_of b).
+  destruct (ss_loop_spec sp m t b B Hrep (S (S (N.to_nat (t_count_ones t b / 4096)))) 0
+              (mkssb iv_default iv_default iv_default it1 (hd_error (oi_R t B)) it1 (hd_error (oi_R t B))) [] [] [] 0)
+    as (st' & E2 & sv & lv & shv & H1 & H2 & H3 & H4 & H5).
+  - constructor; cbn [sb_samples sb_long sb_short sb_sample_iter sb_sample sb_iter sb_value];
+      try exact sel_iv_default; try reflexivity; try (cbn [lenN length]; lia).
+    + rewrite nth_opt_hd. reflexivity.
+    + exact Hinv1.
+    + rewrite Hmid1, <- (skipN_0 (oi_R t B)) at 1. rewrite tl_skipN. reflexivity.
+    + rewrite nth_opt_hd. reflexivity.
+    + exact Hinv1.
+    + rewrite Hmid1, <- (skipN_0 (oi_R t B)) at 1. rewrite tl_skipN. reflexivity.
+  - lia.
+  - unfold nsb_of. rewrite Hcnt. lia.
+  - rewrite E2. cbn [bind].
+    destruct (sel_iv_pack _ _ H1) as (s1 & P1 & Hs1). destruct (sel_iv_pack _ _ H2) as (s2 & P2 & Hs2).
+    destruct (sel_iv_pack _ _ H3) as (s3 & P3 & Hs3). rewrite P1. cbn [bind]. rewrite P2. cbn [bind]. rewrite P3. cbn [bind].
+    eexists. split; [reflexivity|]. split.
+    + exists sv, lv, shv. cbn [ss_samples ss_long ss_short]. auto.
+    + unfold ss_superblocks. cbn [ss_samples]. destruct Hs1 as (_ & -> & _). rewrite H4. unfold nsb_of. lia.
+Qed.
+
+(* ================================================================ (5) select_unchecked *)
+
+(* for every rank below the number of ones the query returns the position of that one, whether the
+   superblock of the rank was stored long or short *)
+Theorem select_unchecked_spec sp m t s b B r : bv_repr b B -> ss_valid t B s ->
+  r < count (t_bits t B) ->
+  exists p, select_unchecked sp m t s b r = Ok p /\ nth_opt (ones (t_bits t B)) r = Some p.
+Proof.
+  intros Hrep (sv & lv & shv & Hsv & Hlv & Hshv & Hlen & Hgood) Hr.
+  set (B' := t_bits t B) in *. set (P := ones B') in *.
+  destruct (select_exists B' r Hr) as (x & Hx & Hxbit & Hxr & Hxlen). fold P in Hx.
+  unfold select_unchecked. change select_SUPERBLOCK_SIZE with 4096.
+  change select_SUPERBLOCK_MASK with (N.ones 12). rewrite N.land_ones. change (2 ^ 12) with 4096.
+  set (sb := r / 4096). set (off := r mod 4096).
+  destruct (Hgood sb) as (p0 & ptr & Hp0 & Hs0 & Hs1 & Hreg); [unfold nsb_of, sb; fold B'; lia|]. fold P in Hp0.
+  rewrite (sel_iv_get _ _ _ _ Hsv Hs0). cbn [bind].
+  destruct (N.eqb_spec off 0) as [Hoff|Hoff].
+  - exists p0. split; [reflexivity|]. replace r with (4096 * sb) by (unfold sb, off in *; lia). exact Hp0.
+  - rewrite (sel_iv_get _ _ _ _ Hsv Hs1). cbn [bind].
+    assert (Hparity : N.land ptr 1 = ptr mod 2) by (change 1 with (N.ones 1); rewrite N.land_ones; reflexivity).
+    rewrite Hparity.
+    assert (Hr_eq : r = 4096 * sb + off) by (unfold sb, off; lia).
+    assert (Hp0x : p0 < x) by (apply (ones_increasing B' (4096 * sb) r); [exact Hp0|exact Hx|lia]).
+    destruct Hreg as [[Epar Hlong]|[Epar Hshort]]; rewrite Epar.
+    + (* long: the offset is stored *)
+      replace (0 =? 0) with true by lia.
+      rewrite (sel_iv_get _ _ _ _ Hlv (Hlong off x ltac:(unfold off; lia) ltac:(rewrite <- Hr_eq; exact Hx))). cbn [bind].
+      exists x. split; [f_equal; lia|exact Hx].
+    + (* short: block sample, then scan the words *)
+      replace (1 =? 0) with false by lia.
+      change select_BLOCK_SIZE with 64. change select_BLOCK_MASK with (N.ones 6). rewrite N.land_ones. change (2 ^ 6) with 64.
+      set (block := off / 64). set (rr := off mod 64).
+      assert (Hblk : 4096 * sb + 64 * block < count B') by (unfold block, off, sb in *; lia).
+      destruct (select_exists B' _ Hblk) as (x0 & Hx0 & Hx0bit & Hx0r & Hx0len). fold P in Hx0.
+      rewrite (sel_iv_get _ _ _ _ Hshv (Hshort block x0 ltac:(unfold block, off; lia) Hx0)). cbn [bind].
+      assert (Hp0x0 : p0 <= x0).
+      { destruct (N.eq_dec block 0) as [Hb0|Hb0].
+        - rewrite Hb0, N.mul_0_r, N.add_0_r in Hx0. assert (x0 = p0) by congruence. lia.
+        - assert (p0 < x0) by (apply (ones_increasing B' (4096 * sb) (4096 * sb + 64 * block)); [exact Hp0|exact Hx0|lia]). lia. }
+      replace (p0 + (x0 - p0)) with x0 by lia.
+      destruct (N.ltb_spec 0 rr) as [Hrr|Hrr].
+      * rewrite split_offset_spec. unfold B' in Hx0len. rewrite t_bits_len in Hx0len.
+        assert (Hidx : x0 / 64 < nwords B) by (apply nwords_lt; exact Hx0len).
+        destruct (t_word_view t b B _ Hrep Hidx) as (w0 & Hw0 & Hseg0). rewrite Hw0. cbn [bind].
+        rewrite low_set_unchecked_ok by lia. cbn [bind].
+        pose proof (wseg_mask_low _ _ _ _ _ (x0 mod 64) Hseg0 ltac:(lia)) as Hseg.
+        replace (N.max 0 (x0 mod 64)) with (x0 mod 64) in Hseg by lia.
+        assert (Ex0 : 64 * (x0 / 64) + x0 mod 64 = x0) by lia.
+        destruct (select_scan_spec sp m t b B Hrep (x0 / 64) (x0 mod 64) _ rr Hidx Hseg ltac:(lia)) as (p & E & Hpb & Hpr).
+        { rewrite Ex0. fold B'. unfold rr, block, off, sb in *. lia. }
+        exists p. split; [exact E|]. apply nth_opt_ones_char. split; [exact Hpb|].
+        fold B' in Hpr. rewrite Hpr, Ex0. unfold rr, block, off, sb in *. lia.
+      * exists x0. split; [reflexivity|]. replace r with (4096 * sb + 64 * block) by (unfold rr, block, off, sb in *; lia).
+        exact Hx0.
+Qed.
